@@ -31,10 +31,12 @@ impl LintPass for StackCheckPass {
                         }
 
                         if let Some((reg2, off2)) = node.uses_memory_location() {
-                            if reg2 == Register::X2 && off2.value() + off >= 0 {
+                            // Addresses wrap around like the machine's do
+                            let position = off2.value().wrapping_add(*off);
+                            if reg2 == Register::X2 && position >= 0 {
                                 errors.push(LintError::InvalidStackOffsetUsage(
                                     node.node().clone(),
-                                    off2.value() + off,
+                                    position,
                                 ));
                             }
                         }
